@@ -116,8 +116,10 @@ def handleDs (o : Opts) (d0 : List Quad) : String :=
   else
     -- a set container holds each quad once
     let d := if o.set then d0.eraseDups else d0
-    let out := writeDoc d
-    let shown := if o.set then ((d.map writeQuad).mergeSort strLe).flatten else out
+    -- the bytes are those of the writer interpreted from the generated op tables (`writeDocT`), which
+    -- `writeDocT_eq` proves equal to the `writeDoc` of the round-trip theorems
+    let out := writeDocT nq d
+    let shown := if o.set then ((d.map (writeQuadT nq)).mergeSort strLe).flatten else out
     let tooLong := match o.fail with
       | some n => decide ((String.ofList out).utf8ByteSize > n)
       | none => false
@@ -162,7 +164,7 @@ def handle (line : String) : String :=
     match Term.parseAll rest with
     | some (t, []) =>
       if termPanics t then "out=panic"
-      else reply ([kv "out" (hexOfChars (writeTerm t)), kv "seen" (hexOfString t.render)]
+      else reply ([kv "out" (hexOfChars (writeTermT t)), kv "seen" (hexOfString t.render)]
         ++ (if termOk t && posOk .obj t then ["o.rt=1"] else []))
     | _ => "bad-op"
   | ["p", mode, h] =>
